@@ -461,7 +461,7 @@ func (v *AVCSample) UnmarshalBinary(data []byte) error {
 		}
 		b = b[sizeOfNALU:]
 
-		if len(b) < int(length) {
+		if uint64(len(b)) < length {
 			return errors.Errorf("requires %v only %v bytes", length, len(b))
 		}
 
